@@ -216,6 +216,43 @@ def motif_ambiguity(run, scratch):
     return ncase
 
 
+def wide_star(run, rec, Q, wp, idx):
+    """The same first-principles column likelihood on a star tree with 70 tips (one polytomy wider than 64 children),
+    every tip showing all four bases and a gap, columns that differ in single early tips."""
+    import check_C05
+    from cogent3 import make_aligned_seqs, make_tree
+    from scipy.linalg import expm
+
+    ntips, ncols = 70, 36
+    tips = [f"t{i:02d}" for i in range(ntips)]
+    lens = [0.02 + 0.003 * (i % 11) for i in range(ntips)]
+    cols = [[("ACGT"[c % 4])] * ntips for c in range(ncols)]
+    for k in range(ntips):
+        cols[10 + (k % 20)][k] = "-"
+    for k, (c, x) in enumerate(((0, "G"), (1, "T"), (2, "A"), (3, "C"))):
+        cols[c][k] = x
+    seqs = {t: "".join(c[i] for c in cols) for i, t in enumerate(tips)}
+    sm = check_C05.make_lf(rec).model
+    lf = sm.make_likelihood_function(make_tree("(" + ",".join(f"{t}:{l}" for t, l in zip(tips, lens)) + ");"))
+    lf.set_alignment(make_aligned_seqs(seqs, moltype="dna"))
+    lf.set_motif_probs({"".join(w): float(frac(v)) for w, v in rec["pi"]})
+    for pn, v in rec["params"]:
+        lf.set_param_rule(pn, value=float(frac(v)), is_constant=True)
+    got = np.asarray(lf.get_full_length_likelihoods(), dtype=float)
+    P = [expm(Q * l) for l in lens]
+    bad = []
+    for c, col in enumerate(cols):
+        v = wp.copy()
+        for k, s in enumerate(col):
+            v = v * (P[k].sum(axis=1) if s == "-" else P[k][:, idx[s]])
+        want = float(v.sum())
+        if abs(got[c] - want) > 1e-8 * want:
+            bad.append((c, float(got[c]), want))
+    if bad:
+        run.fail("specQ-pruning:wide-star:column-likelihood", {"ntips": ntips, "mismatches": bad[:6], "n_bad": len(bad)}, what=f"{len(bad)} per-column likelihoods on a 70-tip star tree differ from pruning with the published Q")
+    return ncols
+
+
 def spec_q_pruning(run, scratch):
     """lnL of every MarkovQ.tla instance (codon models under two genetic codes, dinucleotide, user-built, general):
     the real function's per-column likelihoods against a pruning whose rate matrix is the SPEC's exact Q (TLC output)
@@ -287,6 +324,8 @@ def spec_q_pruning(run, scratch):
                 bad.append((c, col, float(got[c]), want))
         if bad:
             run.fail(key0 + ":column-likelihood", {"instance": rec["name"], "tag": rec["tag"], "gc": rec.get("gc", 1), "params": rec["params"], "mismatches": bad[:6], "n_bad": len(bad)}, what=f"{len(bad)} per-column likelihoods differ from pruning with the published Q")
+        if rec["name"] == "HKY85" and rec["tag"] == "k3":
+            n += wide_star(run, rec, Q, wp, idx)
     return n
 
 
